@@ -1,5 +1,6 @@
 //! C15: process_path on real trees.
-//! in : <hex path> TAB <0|1 unparseable_are_text>
+//! in : <hex path> TAB <0|1 unparseable_are_text> [TAB <hex working directory>]
+//!      (with a third field the process changes to that directory first: relative path strings)
 //! out: one line, results separated by ' ':  <kind>:<hex path>:<type code>
 //!      kind V FileValid  E FileErrEmpty  S FileErrNotSupported  A FileErrNotAFile
 //!           X FileErrNotExist  P FileErrNoPermissions  T FileErrTooSmall  L FileErrLoadingLibrary
@@ -46,6 +47,15 @@ fn main() {
         let mut it = line.split('\t');
         let path = String::from_utf8_lossy(&unhex(it.next().unwrap_or(""))).to_string();
         let uat = it.next().unwrap_or("1") == "1";
+        if let Some(cwd) = it.next() {
+            if !cwd.is_empty() {
+                let d = String::from_utf8_lossy(&unhex(cwd)).to_string();
+                if std::env::set_current_dir(&d).is_err() {
+                    println!("CHDIR-FAILED");
+                    continue;
+                }
+            }
+        }
         let r = std::panic::catch_unwind(|| process_path(&path, uat));
         match r {
             Err(_) => println!("PANIC"),
